@@ -252,6 +252,30 @@ pub enum Fault {
     Replace(usize),
     Insert(usize),
     F64(usize, usize),
+    /// the payload of a string record replaced by the i-th byte string of `STR_PAYLOADS` (mostly not valid UTF-8)
+    Str(usize),
+}
+/// string payloads: cut-short multi-byte sequences (with and without NUL padding), stray continuation bytes,
+/// overlong / surrogate encodings, Latin-1 bytes, a long run of 0xFF
+pub fn str_payloads() -> &'static Vec<Vec<u8>> {
+    static T: OnceLock<Vec<Vec<u8>>> = OnceLock::new();
+    T.get_or_init(|| {
+        let mut v: Vec<Vec<u8>> = vec![
+            vec![0xE2, 0x82, 0x00, 0x00],
+            vec![0xE2, 0x82],
+            vec![0xC3, 0x00],
+            vec![0xC3],
+            vec![b'a', 0x80],
+            vec![0xFF, 0xFE],
+            vec![0xC0, 0xAF],
+            vec![0xED, 0xA0, 0x80, 0x00],
+            vec![0xF0, 0x9F, 0x98, 0x00],
+            vec![0xB5, b'm'],
+            vec![b'a', 0x00, 0x00, 0x00],
+        ];
+        v.push(vec![0xFF; 30000]);
+        v
+    })
 }
 #[derive(Clone, Copy, Debug, PartialEq)]
 pub enum LenF {
@@ -293,6 +317,9 @@ pub fn fault_table() -> &'static Vec<Fault> {
             for val in 0..F64_VALUES.len() {
                 v.push(Fault::F64(slot, val));
             }
+        }
+        for i in 0..str_payloads().len() {
+            v.push(Fault::Str(i));
         }
         v
     })
@@ -419,6 +446,16 @@ fn fault_patch(b: &Base, pos: usize, f: &Fault) -> Option<(Vec<u8>, usize)> {
             let mut v = wire(&alphabet(false)[*i]);
             v.extend_from_slice(raw);
             (v, 1)
+        }
+        Fault::Str(i) => {
+            if r.dtype != dt::STR {
+                return None;
+            }
+            let pl = &str_payloads()[*i];
+            if *pl == r.payload {
+                return None;
+            }
+            (wire(&Rec::new(r.rtype, r.dtype, pl.clone())), 1)
         }
         Fault::F64(slot, val) => {
             if r.dtype != dt::F64 || raw.len() < 4 + 8 * (slot + 1) {
@@ -1149,7 +1186,7 @@ impl Driver for C10 {
         let nb = generated_bases().len();
         Describe {
             rule: format!(
-                "base streams: {nb} reference-encoder streams (empty library, empty structure, each element kind minimal and with all optional records, strans variants, property list, mixed strings, two multi-element structures, long coordinate lists, a 24-structure library) + the {} tracked repository .gds files. [T] every byte prefix of bases with <= 64 records (incl. length 0 and the full stream), record boundary +-0..3 bytes of the larger ones. [F] at {} record position(s) each of {} single-record faults: length field := 0,1,2,3,odd,len-2,len+2,0xFFFE,0xFFFF; payload emptied; record type := each of 0x00..0x3b and 0x3c,0x3d,0x40,0x7f,0x80,0xfe,0xff; data type := 0..7,255; record deleted / duplicated / swapped with successor; a whole element of each of the 7 kinds spliced in; record replaced by / preceded by each record of the minimal typed alphabet; each 8-byte real := {{0, 1 (smallest unnormalised), 0x80..0, 0x7f..f, 0xff..f, smallest normalised, largest unnormalised at exponent 0, a negative unnormalised}}. {} [S] after each of {} parser contexts (library header x5, structure x4, each element kind after its start record and after XY, after STRANS/MAG, after PROPATTR/PROPVALUE/ENDEL, after ENDLIB) every sequence of 1..2 records over the full typed alphabet ({} records: each defined record type with minimal valid payload, zero-length variant, wrong-size variant, the ten unreleased types, XY with 3/5 points){}, each once followed by end-of-input and once by the context's natural completion. [L] linear-time evidence: for the families many-tiny-structs, many-elements, maximal-xy-records (32 KiB each), many-properties, maximal-strings (32 KiB each), error-at-the-very-end at {} KiB the stand-alone reader (`l21mc gdsread`) runs under `valgrind --tool=cachegrind --cache-sim=no`; the deterministic instruction counts must satisfy I(4N)-I(2N) <= 3 x (I(2N)-I(N)) (linear => 2, quadratic => 4; differences below 10 % of I(N) count as noise); the counts are echoed under alphabet_use as instructions:<family>:<size>. [HL] all 65 536 values of the length field at 3 record positions; [HT] all 256 x 256 (record type, data type) pairs at 2 record positions. A state is one byte stream (hashed); non-trivial = differs from its unfaulted base.",
+                "base streams: {nb} reference-encoder streams (empty library, empty structure, each element kind minimal and with all optional records, strans variants, property list, mixed strings, two multi-element structures, long coordinate lists, a 24-structure library) + the {} tracked repository .gds files. [T] every byte prefix of bases with <= 64 records (incl. length 0 and the full stream), record boundary +-0..3 bytes of the larger ones. [F] at {} record position(s) each of {} single-record faults: length field := 0,1,2,3,odd,len-2,len+2,0xFFFE,0xFFFF; payload emptied; record type := each of 0x00..0x3b and 0x3c,0x3d,0x40,0x7f,0x80,0xfe,0xff; data type := 0..7,255; record deleted / duplicated / swapped with successor; a whole element of each of the 7 kinds spliced in; record replaced by / preceded by each record of the minimal typed alphabet; the payload of each string record := each of 12 byte strings that are mostly not valid UTF-8 (cut-short sequences with / without NUL padding, stray continuation bytes, overlong and surrogate encodings, Latin-1, 30 000 x 0xFF); each 8-byte real := {{0, 1 (smallest unnormalised), 0x80..0, 0x7f..f, 0xff..f, smallest normalised, largest unnormalised at exponent 0, a negative unnormalised}}. {} [S] after each of {} parser contexts (library header x5, structure x4, each element kind after its start record and after XY, after STRANS/MAG, after PROPATTR/PROPVALUE/ENDEL, after ENDLIB) every sequence of 1..2 records over the full typed alphabet ({} records: each defined record type with minimal valid payload, zero-length variant, wrong-size variant, the ten unreleased types, XY with 3/5 points){}, each once followed by end-of-input and once by the context's natural completion. [L] linear-time evidence: for the families many-tiny-structs, many-elements, maximal-xy-records (32 KiB each), many-properties, maximal-strings (32 KiB each), error-at-the-very-end at {} KiB the stand-alone reader (`l21mc gdsread`) runs under `valgrind --tool=cachegrind --cache-sim=no`; the deterministic instruction counts must satisfy I(4N)-I(2N) <= 3 x (I(2N)-I(N)) (linear => 2, quadratic => 4; differences below 10 % of I(N) count as noise); the counts are echoed under alphabet_use as instructions:<family>:<size>. [HL] all 65 536 values of the length field at 3 record positions; [HT] all 256 x 256 (record type, data type) pairs at 2 record positions. A state is one byte stream (hashed); non-trivial = differs from its unfaulted base.",
                 REPO_FILES.len(),
                 t.pick("every (bases <= 64 records) / first 24, last 12 and every 37th (larger bases)", "every"),
                 fault_table().len(),
